@@ -183,6 +183,15 @@ def gen(rng, nrng, tier):
         x, dk = gen_data(nrng, N, cplx, kind="noise")
         changes = [[("NW", 4.0), ("k", 3)], [("k", 3), ("NW", 3.0), ("method", "eigen")], [("method", "unity"), ("k", 2)]][i % 3]
         yield ("reuse", {"x": np.asarray(x), "NW": 2.5, "k": 4, "nfft": 2 * N, "method": ["adapt", "unity", "eigen"][i % 3], "changes": changes})
+    # wide bands: the leading concentration ratios are 1 to rounding (tied / not monotone as floats); tapers supplied by the
+    # caller must be used in the caller's order
+    for i in range(9 if tier == "quick" else 90):
+        cplx = bool(i % 2)
+        N = [16, 24, 40, 64][i % 4]
+        NW = [6.0, 7.5, 8.0, 7.0][i % 4] if N > 16 else 6.0
+        x, dk = gen_data(nrng, N, cplx, kind="noise")
+        yield ("pmtm", {"x": x, "NW": NW, "k": [int(2 * NW) - 1, 6, None][i % 3], "nfft": [N, 2 * N, N + 3][i % 3],
+                        "method": ["unity", "eigen", "adapt"][i % 3], "supplied": True, "dkind": dk})
     n = 60 if tier == "quick" else 800
     methods = ["unity", "eigen", "adapt"]
     kinds = ["noise", "tone", "intdtype", "list", "dyn"]
